@@ -4,6 +4,7 @@ CONSTANTS
   Versions = {1, 2}
   MaxHist = 99
   MaxPost = 1
+  PostAll = TRUE
 INVARIANTS TypeOK ScramProved NoSuccessAfterBadProof VerifiedMeansProved
 PROPERTIES RefusedSilent Final Rejects
 VIEW View
